@@ -7,14 +7,14 @@ use super::Prop;
 use crate::common::{CaseResult, Ctx, Rng};
 
 const RULE: &str = "cases = op sequences on an initially empty HeaderMap: every sequence of mutators \
-(insert/append over names a,A,b and values 1,2; remove; retain; clear; drain; http round-trip; FromIterator rebuild) up to the tier's depth, \
+(insert/append over names a,A,b and values 1,2; remove; retain; clear; drain; http round-trip; FromIterator rebuild; store through get_mut) up to the tier's depth, \
 each mutator followed by the observers (get, get_all, contains, len, iter, into_iter, keys), plus seeded random \
 sequences up to length 300 over a wider alphabet incl. invalid names; a case is non-trivial if the map was non-empty \
 at some point; distinct = distinct (case, output) hashes";
 
 const MUT: &[&str] = &[
     "in:a:1", "in:A:2", "in:b:1", "ap:a:2", "ap:A:1", "ap:b:2", "rm:a", "rm:B", "rt:a:1", "rt:*:2",
-    "cl", "hr", "dr", "fi",
+    "cl", "hr", "dr", "fi", "gm:A:3",
 ];
 const OBS: &str = "gt:a ga:A ck:b ln it ii ks";
 
@@ -22,7 +22,8 @@ const RAND_OPS: &[&str] = &[
     "in:a:1", "in:A:2", "in:b:1", "in:content-type:3", "in:B:2", "ap:a:2", "ap:A:1", "ap:b:2", "ap:a:3",
     "ap:Content-Type:1", "ap:x-y:2", "ap:b:1", "ap:a:1", "rm:a", "rm:B", "rm:zz", "rm:(", "rm:a@b",
     "rm:content-type", "rt:a:1", "rt:*:2", "rt:b:*", "rt:*:*", "rt:zz:*", "cl", "hr", "dr", "fi", "gt:a", "gt:B",
-    "gt:(", "ga:A", "ga:zz", "ck:b", "ck:a@b", "ln", "it", "ii", "ks",
+    "gt:(", "ga:A", "ga:zz", "ck:b", "ck:a@b", "ln", "it", "ii", "ks", "gm:a:4", "gm:B:5", "gm:zz:1", "gm:(:1",
+    "gm:Content-Type:6",
 ];
 
 fn gen(ctx: &Ctx) -> Vec<String> {
@@ -258,6 +259,19 @@ fn run(line: &str) -> CaseResult {
                     fails.push(("get".into(), format!("get({n}) = {:?} want {:?}", got, want)));
                 }
                 format!("G{}", got.unwrap_or_else(|| "-".into()))
+            }
+            ["gm", n, v] => {
+                // store through get_mut: replaces the first value of the name, nothing else
+                let want = norm(n).and_then(|k| r.get_mut(&k)).map(|vs| std::mem::replace(&mut vs[0], v.to_string()));
+                let got = m.get_mut(*n).map(|slot| {
+                    let old = val(slot);
+                    *slot = HeaderValue::from_str(v).unwrap();
+                    old
+                });
+                if got != want {
+                    fails.push(("get_mut".into(), format!("get_mut({n}) = {:?} want {:?}", got, want)));
+                }
+                format!("M{}", got.unwrap_or_else(|| "-".into()))
             }
             ["ga", n] => {
                 let want = norm(n).and_then(|k| r.get(&k)).cloned().unwrap_or_default();
